@@ -481,7 +481,39 @@ def h6_illtyped(timeout=150, **kw):
                          timeout, concretize=conc)
 
 
-# -------------------------------------------------------------------------------------------- replay on the real code (floats)
+H6_NUMERIC = {k: v for k, v in OPS6.items() if k not in ("Tf", "Tj", "TJ", "'", '"', "sc", "scn")}      # operators whose operands are all numbers
+
+
+def h6_missing2(timeout=200, part=None, **kw):
+    """two consecutive operators that each have too few operands (every pair of operators, every short operand count), then a glyph - with no state reset in between: the glyph is
+    exactly the one of the program without the two operators (an under-supplied operator is skipped and takes the operands it found with it)"""
+    import pdfminer.pdfinterp as pi
+    pre = H6_PRE
+    probe = b" (AB) Tj ET"
+    base = _run_content([pre + probe])
+    names = sorted(H6_NUMERIC)
+
+    def fn(ex):
+        ops = []
+        for i in (1, 2):
+            op = names[ex.choice(len(names), "op%d" % i)]
+            k = ex.choice(H6_NUMERIC[op], "k%d" % i)               # 0 .. n-1 operands present
+            ops.append(b" ".join([b"%d" % (3 + 2 * i + j) for j in range(k)] + [op.encode()]))
+        content = pre + b" ".join(ops) + probe
+        try:
+            got = _run_content([content])
+        except symx.Violation:
+            raise
+        except Exception as e:
+            ex.require(False, "content %r raised %s: %s" % (content, type(e).__name__, e), content=content)
+        ex.require(got == base, "operators with too few operands change the glyphs shown after them: %r" % content, content=content)
+
+    def conc(m, info):
+        return {"content": info["content"], "missing2": True}
+    return core.run_symx("H6_illtyped", fn, [pi.PDFPageInterpreter.execute, pi.PDFPageInterpreter.pop],
+                         {"operators": names, "fault": "two consecutive operators, each with 0..n-1 of its n operands; the glyph follows without any reset"}, timeout, concretize=conc, part=part)
+
+
 # -------------------------------------------------------------------------------------------- H7 colour operators
 COL_OPS = [("g", 1), ("rg", 3), ("k", 4), ("G", 1), ("RG", 3), ("K", 4), ("cs:DeviceGray", 0), ("cs:DeviceRGB", 0), ("cs:DeviceCMYK", 0), ("CS:DeviceRGB", 0), ("CS:DeviceCMYK", 0),
            ("sc", 4), ("scn", 4), ("SC", 4), ("SCN", 4), ("q", 0), ("Q", 0)]
@@ -564,6 +596,13 @@ def replay(harness, inp):
         if it.argstack:
             return "program %r leaves operands on the stack: %r" % (prog, it.argstack)
         return None
+    if harness == "H6_illtyped" and inp.get("missing2"):
+        base = _run_content([H6_PRE + b" (AB) Tj ET"])
+        try:
+            got = _run_content([inp["content"]])
+        except Exception as e:
+            return "content stream %r raised %r" % (inp["content"], e)
+        return None if got == base else "content stream %r: glyphs %r, without the two under-supplied operators %r" % (inp["content"], got, base)
     if harness == "H6_illtyped":
         base = _run_content([b"q " + H6_PRE + H6_POST])[-3:]
         try:
@@ -684,6 +723,7 @@ def _replay_form(inp, v, g, W, diff):
 
 def jobs(tier):
     J = [Job("H7_colour:%d" % k, "h7_colour", {"K": 3, "part": [k, 4, 6]}, 300, "H7_colour") for k in range(4)]
+    J += [Job("H6_missing2:%d" % k, "h6_missing2", {"part": [k, 2, 5]}, 300, "H6_illtyped") for k in range(2)]
     J += [Job("H2_spacing", "h2_spacing", {}, 150), Job("H4_form", "h4_form", {}, 200), Job("H5_split", "h5_split", {}, 100), Job("H6_illtyped", "h6_illtyped", {}, 200)]
     if tier == "quick":
         for f in range(len(OPS)):
